@@ -1,5 +1,5 @@
 (** C12 — every numeral constructor yields the canonical, decodable encoding of its number *)
-From LC Require Import Spec.Encodings Model.Convert Proofs.Convert Gen.Terms.
+From LC Require Import Spec.Encodings Model.Convert Proofs.Convert Gen.Terms Proofs.BinaryArith.
 
 (** the loops of the model compute the documented closed forms, for every n *)
 Theorem C12_shapes : forall n,
@@ -72,6 +72,11 @@ Proof. exact into_signed_spec. Qed.
 Example C12_example : into_signed false 2 Scott = Some (pair_t (scott 0) (scott 2)).
 Proof. reflexivity. Qed.
 
+(** the [N]-indexed encoder/decoder that the test driver uses for numerals a unary [nat] cannot reach in practice
+    (2^32 .. usize::MAX) is the same encoding, and decodes back *)
+Theorem C12_binary_large : forall n : N, binary_N n = binary (N.to_nat n) /\ dec_binary_N (binary_N n) = Some n.
+Proof. intros n. split; [apply binary_N_spec|apply dec_binary_N_ok]. Qed.
+
 Print Assumptions C12_shapes.
 Print Assumptions C12_closed.
 Print Assumptions C12_normal.
@@ -81,3 +86,4 @@ Print Assumptions C12_injective_binary.
 Print Assumptions C12_zero_one.
 Print Assumptions C12_containers.
 Print Assumptions C12_signed.
+Print Assumptions C12_binary_large.
